@@ -39,7 +39,7 @@ rm -f $OUT/.demo_mut.log
 # (1) suite with patch, demo removed
 git checkout -q -- . ; git clean -fdq tests src; git apply $OUT/patch.diff
 echo "== existing suite WITH patch" >> $LOG
-cargo nextest run --workspace --no-fail-fast --offline -j 6 2>&1 | tail -6 > $OUT/.suite.log || true
+cargo nextest run -p redb@4.2.0 -p redb-derive -p redb-derive-rename-test --no-fail-fast --offline -j 6 2>&1 | tail -6 > $OUT/.suite.log || true
 cat $OUT/.suite.log >> $LOG
 grep -q "448 passed\|448 tests run: 448 passed" $OUT/.suite.log && SUITE_OK=1 || SUITE_OK=0
 rm -f $OUT/.suite.log
